@@ -1072,6 +1072,10 @@ def gen_longargs(lengths):
         yield 'paren-call+nested', lambda at: ASSIGN('x', PAR(CALL('f', at, trailing=tc))) + ASSIGN('y', CALL('g', [CALL('h', at)]))
         yield 'paren-meth-or', lambda at: IF([(PAR(BIN(METH(METH(ID('o'), 'm', at), 'n'), 'or', ID('b'))), BODY1)]) + EXPR(CALL('g', [CALL('h', at)]))
         yield 'group', lambda at: EXPR(CALL('f', [x for i, a in enumerate(at) for x in (STR("'--o%d'" % i), a)], trailing=tc))
+        # one-element containers whose element ends in a call (the comma rule for a single *function argument* must not leak)
+        yield 'arr-of-call', lambda at: ASSIGN('x', ARR([CALL('g', at)], trailing=tc))
+        yield 'dict-of-meth', lambda at: ASSIGN('x', DICT([(STR("'k'"), METH(ID('o'), 'm', at))], trailing=tc))
+        yield 'kw-arr-of-call', lambda at: EXPR(CALL('f', [ID('a')], [('k', ARR([CALL('g', at)], trailing=tc))]))
 
     def andchain(at):
         e = at[0]
